@@ -90,17 +90,20 @@ def _gen(ctx, problems):
         problems.append("hygienize no longer brackets the call with push/pop_checkpoint")
     hm = re.search(r"function PPContext:hygienize\(func\)(.*?)\nend", pp, re.S)
     hyg = hm.group(1) if hm else ""
-    if not re.search(r"local oldaddindex = statnodes\.addindex\s*statnodes\.addindex = addindex", hyg) or \
-       not re.search(r"statnodes\.addindex = oldaddindex", hyg):
+    cursors = bool(re.search(r"local cursor = \{index = #statnodes\+1\}", hyg) and re.search(r"cursor\.index = cursor\.index \+ 1", pp))
+    if not cursors and (not re.search(r"local oldaddindex = statnodes\.addindex\b", hyg) or
+                        not re.search(r"statnodes\.addindex = addindex\b", hyg) or
+                        not re.search(r"statnodes\.addindex = oldaddindex", hyg)):
         problems.append("hygienize: the addindex save/restore is not the one the model mirrors")
     # a repair would move the caller's index past what the callee inserted (any arithmetic on oldaddindex)
     adjusts = bool(re.search(r"oldaddindex\s*=\s*oldaddindex\s*\+", hyg))
     txt = ("(* GENERATED by checks/C16.py from /repo - do not edit *)\n"
            "Definition POLY_COMPARES_COMPTIME_VALUES : bool := %s.\n"
            "Definition POP_CHECKPOINT_MERGES : bool := %s.\n"
-           "Definition HYGIENIZE_ADJUSTS_CALLER : bool := %s.\n" % tuple("true" if x else "false" for x in (cmp_vals, merges, adjusts)))
+           "Definition HYGIENIZE_ADJUSTS_CALLER : bool := %s.\n"
+           "Definition HYGIENIZE_USES_CURSORS : bool := %s.\n" % tuple("true" if x else "false" for x in (cmp_vals, merges, adjusts, cursors)))
     vlib.write_if_changed(os.path.join(vlib.coq_dir(ID), "Gen.v"), txt)
-    ctx.c16 = {"poly_compares_comptime_values": cmp_vals, "pop_checkpoint_merges": merges, "hygienize_adjusts_caller": adjusts}
+    ctx.c16 = {"poly_compares_comptime_values": cmp_vals, "pop_checkpoint_merges": merges, "hygienize_adjusts_caller": adjusts, "hygienize_uses_cursors": cursors}
     return dict(ctx.c16, generalize="generic(memoize(hygienize(func)))")
 
 
